@@ -181,16 +181,22 @@ async def _run(ctx, text):
                 try:
                     try:
                         raw, off2 = ser.unpack_serializable(sh, data, off)
-                        exp = "Ok ([%s], %d%%nat)" % ("; ".join(wire.msg_vals_coq(fmts, raw)), off2)
                         ok = True
                     except Exception:   # noqa - any exception is a rejection
                         exp, ok, raw, off2 = "Raise PackError", False, None, None
+                    if ok:
+                        try:
+                            exp = "Ok ([%s], %d%%nat)" % ("; ".join(wire.msg_vals_coq(fmts, raw)), off2)
+                        except Exception as e:   # noqa - the harness cannot render this decoded value
+                            ctx.broke("harness: decoded value of %s cannot be rendered for the model" % cls.__name__, repr(e))
+                            exp = None
                 finally:
                     default_eccrypto.key_from_public_bin = orig
                 kinds["ok" if ok else "reject"] += 1
                 kc = "[" + "; ".join(zl(k) for k in dict.fromkeys(klog)) + "]"
                 meta = {"kind": "decode", "cls": cls.__module__ + "." + cls.__name__, "how": how, "data": data.hex(), "offset": off}
-                cases.append(("(%s, %s, %s, %d%%nat)" % (kc, fcoq, zl(data), off), exp, meta))
+                if exp is not None:
+                    cases.append(("(%s, %s, %s, %d%%nat)" % (kc, fcoq, zl(data), off), exp, meta))
                 ctx.count(("dec", cls.__name__, data, off), nontrivial=len(data) > off)
                 if ok:
                     if not (off <= off2 <= len(data)):
